@@ -218,7 +218,7 @@ pub fn execute(ops_in: Option<&[XOp]>, mut gen: Option<(&mut Rng, usize, u64)>) 
     let mut trace = String::new();
     let n = match (&ops_in, &gen) { (Some(o), _) => o.len(), (None, Some(g)) => g.1, _ => 0 };
     let mut uri_counter = 0u32; let mut kctr = 0u64;
-    let mut put_ts: BTreeMap<u64, i64> = BTreeMap::new(); let mut delete_seqs: Vec<u64> = vec![]; let mut drop_commit_incomplete: Option<String> = None; let mut symptoms: Vec<String> = vec![];
+    let mut put_ts: BTreeMap<u64, Vec<i64>> = BTreeMap::new(); let mut delete_seqs: Vec<u64> = vec![]; let mut drop_commit_incomplete: Option<String> = None; let mut symptoms: Vec<String> = vec![];
     // generator's view of the committed frames: (id, is_document, chunked)
     for i in 0..n {
         if prof { eprintln!("  before op {} at {:?}", i, t_start.elapsed()); }
@@ -257,7 +257,7 @@ pub fn execute(ops_in: Option<&[XOp]>, mut gen: Option<(&mut Rng, usize, u64)>) 
                 if !obs.ok && matches!(sop, Op::Put { .. } | Op::Vacuum) { symptoms.push(format!("op {}: {:?} returned an error", i, sop)); }
                 if let Some(x) = drop_commit_incomplete.take() { symptoms.push(format!("op {}: {}", i, x)); }
                 if prof { if let Ok(st) = d.mem().stats() { eprintln!("    after {:?}: frames {} vectors {} vec {} wal {:?}", sop, st.frame_count, st.vector_count, st.has_vec_index, memvid_core::verif_hooks::wal_stats(d.mem())); } }
-                if let Op::Put { ts, .. } = sop { if obs.ok { put_ts.insert(d.last_tag, *ts); } }
+                if let Op::Put { ts, .. } = sop { if obs.ok { put_ts.entry(d.last_tag).or_default().push(*ts); } }
                 if let Op::Delete { .. } = sop { if obs.ok { delete_seqs.push(obs.seq); } }
                 if let Some(e) = d.open_error.clone() { if e.contains("LockBusy") { symptoms.push(format!("op {}: open failed: {}", i, e)); } failed = Some(format!("open failed at op {}: {}", i, e)); break; }
                 // the model's op: the store op of Model/Store.v plus what Model/Determinism.v needs
@@ -290,7 +290,7 @@ pub fn execute(ops_in: Option<&[XOp]>, mut gen: Option<(&mut Rng, usize, u64)>) 
                 let auto = if grew > 0 && pending == 0 { T::some(T::N((grew - 1) as u128)) } else if grew > 1 { T::some(T::N((grew - 1) as u128)) } else { T::none() };
                 let ncards = d.mem().memories().card_count() as u64 - cards_before;
                 // tied frames share one content tag: the timestamp check below is per tag, leave them out
-                if r.is_ok() && dflt { put_ts.insert(tag, ts); }
+                if r.is_ok() && dflt { put_ts.entry(tag).or_default().push(ts); }
                 let fc = d.mem().frame_count() as u64; let nx = d.mem().next_frame_id();
                 let res = match &r { Ok(s) => T::C("Ok", vec![T::N(*s as u128)]), Err(e) => { symptoms.push(format!("op {}: put failed: {}", i, e)); T::C("Err", vec![T::N(9)]) } };
                 let sop_t = T::C("OPut", vec![T::none(), T::N(tag as u128), T::N(0), T::N(0), auto]);
@@ -323,8 +323,10 @@ pub fn execute(ops_in: Option<&[XOp]>, mut gen: Option<(&mut Rng, usize, u64)>) 
         for f in &frames {
             if f.status == FrameStatus::Active && f.role == FrameRole::Document && f.supersedes.is_none() {
                 if let Ok(b) = d.mem().frame_canonical_payload(f.id) {
-                    if let Some(ts) = d.tags.get(blake3::hash(&b).as_bytes()).and_then(|t| put_ts.get(t)) {
-                        if f.timestamp != *ts { failed_input = Some(format!("explicit-input-ignored: frame {} was put with timestamp {} and holds {}", f.id, ts, f.timestamp)); }
+                    // several puts may carry byte-identical content (same tag): the frame's timestamp must be
+                    // one of the timestamps given for that content
+                    if let Some(tss) = d.tags.get(blake3::hash(&b).as_bytes()).and_then(|t| put_ts.get(t)) {
+                        if !tss.contains(&f.timestamp) { failed_input = Some(format!("explicit-input-ignored: frame {} was put with a timestamp in {:?} and holds {}", f.id, tss, f.timestamp)); }
                     }
                 }
             }
